@@ -242,6 +242,31 @@ func diffClass(n, l *obs) string {
 	return "other"
 }
 
+// signature names the one further defect listed in known_findings.jsonl: a static field
+// initialiser / static block that is lowered out of the class body runs in sloppy mode in a
+// script, so an assignment to a property of a primitive (TypeError in the strict class body)
+// silently succeeds and evaluation continues.  ref = native (or, spec_only, spec) observation.
+func signature(name, pos string, ref, l *obs) string {
+	if ref == nil || l == nil || ref.C != "throw:TypeError" || !strings.HasPrefix(l.C, "ret:") || len(l.T) < len(ref.T) {
+		return ""
+	}
+	for i := range ref.T {
+		if ref.T[i] != l.T[i] {
+			return ""
+		}
+	}
+	static := pos == "sfield" || pos == "sblock"
+	for _, c := range constructsOf(name) {
+		if strings.HasPrefix(c, "class_") && (strings.Contains(c, "c_sfield") || strings.Contains(c, "c_csfield") || strings.Contains(c, "c_sblock") || strings.Contains(c, "c_spfield")) {
+			static = true
+		}
+	}
+	if static {
+		return "strict-mode-lost-in-lowered-static-initialiser"
+	}
+	return ""
+}
+
 func family(name string) string {
 	parts := strings.Split(name, "/")
 	if len(parts) >= 2 {
@@ -305,7 +330,7 @@ func Run(r *core.Run) {
 	var cmu sync.Mutex
 	core.Parallel(len(progs), 8, func(i int) {
 		p := progs[i]
-		np := nodeProgram{ID: p.Name, Src: p.Src, Probes: p.Probes, Envs: p.Envs, Exp: p.Exp}
+		np := nodeProgram{ID: p.Name, Src: p.Src, Probes: p.Probes, Envs: p.Envs, Exp: p.Exp, Variants: []variant{}}
 		seen := map[string]int{}
 		var tr, er int64
 		base := map[bool]string{}
@@ -412,7 +437,8 @@ func Run(r *core.Run) {
 			if res.NSpecOnly > 0 {
 				m := res.SpecOnly[0]
 				if handVerified(p.Name) {
-					r.Violation(map[string]interface{}{"kind": "spec-only-trace", "program": p.Name, "construct": family(p.Name), "position": pos, "variant": m.Variant},
+					r.Violation(map[string]interface{}{"kind": "spec-only-trace", "program": p.Name, "construct": family(p.Name), "position": pos, "variant": m.Variant,
+						"diff": diffClass(m.Spec, m.Lowered), "known_construct": knownConstruct(p.Name), "signature": signature(p.Name, pos, m.Spec, m.Lowered)},
 						fmt.Sprintf("lowered %s behaves differently from the proposal semantics (variant %s, env %v): expected %v %s, got %v %s",
 							p.Name, m.Variant, m.Env, m.Spec.T, m.Spec.C, m.Lowered.T, m.Lowered.C),
 						map[string]interface{}{"program": p, "mismatch": m, "same_output_for": keysOf(m.Variant)})
@@ -445,7 +471,7 @@ func Run(r *core.Run) {
 				}
 			}
 			r.Violation(map[string]interface{}{"kind": "trace-differs", "program": p.Name, "construct": family(p.Name), "position": pos, "variant": m.Variant,
-				"diff": diffClass(m.Native, m.Lowered), "known_construct": knownConstruct(p.Name)},
+				"diff": diffClass(m.Native, m.Lowered), "known_construct": knownConstruct(p.Name), "signature": signature(p.Name, pos, m.Native, m.Lowered)},
 				fmt.Sprintf("%s lowered for %s behaves differently (env %v): native %v %s, lowered %v %s",
 					p.Name, m.Variant, m.Env, m.Native.T, m.Native.C, m.Lowered.T, m.Lowered.C),
 				map[string]interface{}{"program": p.Name, "source": p.Src, "output": out, "mismatch": m, "same_output_for": keysOf(m.Variant), "mismatching_runs": res.NMismatch})
